@@ -5,6 +5,8 @@ package main
 // renderer that turns a case into vore concrete syntax.
 
 import (
+	"os"
+	"unicode/utf8"
 	"encoding/json"
 	"fmt"
 	"sort"
@@ -111,8 +113,20 @@ func bytesJSON(b []byte) []int {
 func quote(b []byte) string {
 	var sb strings.Builder
 	sb.WriteByte('\'')
+	rawHigh := utf8.Valid(b) // the lexer reads characters: bytes >= 0x80 can only be written as themselves, in valid UTF-8
+	if !rawHigh {
+		for _, c := range b {
+			if c >= 0x80 {
+				// no source text denotes this literal: a scope error, never a verdict
+				fmt.Fprintf(os.Stderr, "harness: literal %v is not valid UTF-8 and cannot be written in a source\n", b)
+				os.Exit(2)
+			}
+		}
+	}
 	for _, c := range b {
 		switch {
+		case c >= 0x80 && rawHigh:
+			sb.WriteByte(c)
 		case c == '\'':
 			sb.WriteString("\\'")
 		case c == '\\':
